@@ -154,12 +154,51 @@ class CHECK(Check):
             if cl in ('none', 'gt_latest', 'eq_latest') and thr != thrs[0]:
                 continue
             out.append(('ok', cl, thr, pl, window, ng, side, lim, None))
+        # the order / partition columns spelled with capitals in the statement (the model metadata keeps lower case)
+        for (cl, _), (pl, _), ng, side in itertools.product(CONDS, PARTS, (0, 1), ('right', 'left')):
+            if pl != 'none' and ng == 0:
+                continue
+            out.append(('ok_upper', cl, thrs[0], pl, 2, ng, side, None, None))
+        # the data side is a sub-select with a LIMIT of its own (the shape dbt generates) and the statement has a LIMIT too
+        for inner, outer in itertools.product((None, 1, 3, 7), (None, 1, 3, 7)):
+            for ng in (0, 1):
+                out.append(('dbt', 'gt', inner, 'none', 2, ng, 'right', outer, None))
         for rej, _ in REJECTED:
             for (cl, _), ng, side in itertools.product(CONDS, (0, 1), ('right', 'left')):
                 if rej == 'two_time_filters' and cl == 'none':
                     continue
                 out.append(('rejected', cl, 2, 'none', 2, ng, side, None, rej))
         return out
+
+    def run_dbt(self, res, case):
+        kind, cl, inner, pl, window, ng, side, outer, rej = case
+        sub = 'SELECT * FROM int1.tt WHERE ts > 2' + (f' LIMIT {inner}' if inner else '')
+        sql = f'SELECT * FROM ({sub}) AS t JOIN mindsdb.tp' + (f' LIMIT {outer}' if outer else '')
+        res.key(case)
+        out = parsing.outcome(sql, 'mindsdb')
+        if out.kind != 'ok':
+            res.count('dbt_not_parsed')
+            return res
+        try:
+            plan = plan_query(out.value, **predq.ts_catalog(window, ng))
+        except (PlanningException, NotImplementedError):
+            res.count('dbt_declared_unsupported')
+            return res
+        except Exception:
+            res.count('internal_error_(C09)')
+            return res
+        res.count('dbt_plans')
+        steps = plan.steps
+        ai = [i for i, s in enumerate(steps) if isinstance(s, S.ApplyTimeseriesPredictorStep)]
+        lims = [(i, s) for i, s in enumerate(steps) if isinstance(s, S.LimitOffsetStep)]
+        if outer is not None:
+            # the requested LIMIT is applied after the join: a limit step after the model, letting through at most `outer` rows
+            after = [s for i, s in lims if ai and i > ai[0]]
+            vals = [getattr(s.limit, 'value', s.limit) for s in after]
+            if not after or min(v for v in vals if v is not None) > outer:
+                res.violation(f'statement-limit-not-applied-after-join|dbt|inner={"none" if inner is None else "set"}',
+                              f'{sql!r}: limit steps after the model: {vals}; the statement asks for LIMIT {outer}\n    {steps}')
+        return res
 
     def ensure(self):
         if self.cons is None:
@@ -176,7 +215,11 @@ class CHECK(Check):
     def run(self, case):
         res = Result()
         kind, cl, thr, pl, window, ng, side, lim, rej = case
+        if kind == 'dbt':
+            return self.run_dbt(res, case)
         sql = build(cl, thr, pl, window, ng, side, lim, rej)
+        if kind == 'ok_upper':
+            sql = sql.replace('t.ts', 't.TS').replace('t.g', 't.G')
         res.key(case)
         out = parsing.outcome(sql, 'mindsdb')
         if out.kind != 'ok':
@@ -190,7 +233,7 @@ class CHECK(Check):
                 n = stack.pop()
                 if isinstance(n, A.BinaryOperation) and n.op == 'and':
                     stack.extend(n.args)
-                elif n is not None and any(isinstance(x, A.Identifier) and str(x.parts[-1]) == 'ts' for x in n.args):
+                elif n is not None and any(isinstance(x, A.Identifier) and str(x.parts[-1]).lower() == 'ts' for x in n.args):
                     user_cond = n
         sig = f'{cl}|groups={ng}'
         try:
@@ -272,7 +315,12 @@ class CHECK(Check):
 
     def describe_case(self, case):
         kind, cl, thr, pl, window, ng, side, lim, rej = case
-        return {'kind': kind, 'sql': build(cl, thr, pl, window, ng, side, lim, rej), 'window': window, 'group_columns': ng}
+        if kind == 'dbt':
+            return {'kind': kind, 'inner_limit': thr, 'outer_limit': lim, 'group_columns': ng}
+        sql = build(cl, thr, pl, window, ng, side, lim, rej)
+        if kind == 'ok_upper':
+            sql = sql.replace('t.ts', 't.TS').replace('t.g', 't.G')
+        return {'kind': kind, 'sql': sql, 'window': window, 'group_columns': ng}
 
 
 def strip_alias(node):
